@@ -426,12 +426,30 @@ class Engine:
                     m["env"].vars[name] = ("lazyconst", src)
 
     # ---------- solver
+    def guarded_check(self, s, timeout_ms):
+        """s.check() with a per-unit budget for undecidable queries: once a unit has spent 90 s in queries that came back unknown, the rest of
+        its queries get a tenth of the budget, so that the unit ends UNDECIDED in bounded time instead of occupying a worker for hours.
+        (No watchdog thread: z3 objects must not be touched - not even released - from a second thread.)"""
+        if getattr(self, "unknown_secs", 0.0) > 90.0:
+            timeout_ms = max(500, timeout_ms // 10)
+            s.set("timeout", timeout_ms)
+        t0_ = time.time()
+        try:
+            r = s.check()
+        except z3.Z3Exception:
+            r = z3.unknown
+        if r == z3.unknown:
+            self.unknown_secs = getattr(self, "unknown_secs", 0.0) + (time.time() - t0_)
+        if os.environ.get("PYVC_TRACE_SOLVER"):
+            print("solver: %s budget=%dms" % (r, timeout_ms), file=sys.stderr, flush=True)
+        return r
+
     def check(self, extra, timeout_ms=None):
         s = z3.Solver(); s.set("timeout", timeout_ms or self.timeout_ms)
         for c in blob_facts(): s.add(c)
         for c in self.path.pc: s.add(c)
         for c in extra: s.add(c)
-        t = time.time(); r = s.check(); self.solver_time += time.time() - t
+        t = time.time(); r = self.guarded_check(s, timeout_ms or self.timeout_ms); self.solver_time += time.time() - t
         return r, s
 
     def check_relevant(self, extra, depth=2, quantifier_free=False):
@@ -471,7 +489,7 @@ class Engine:
         for c in blob_facts(): s.add(c)
         for k in sorted(chosen): s.add(hyps[k][0])
         for e in extra: s.add(e)
-        t = time.time(); r = s.check(); self.solver_time += time.time() - t
+        t = time.time(); r = self.guarded_check(s, self.timeout_ms); self.solver_time += time.time() - t
         return r
 
     def branch(self, cond):
